@@ -28,9 +28,9 @@ TAGS = ["routing", "filter", "t3"]
 def plan(tier, prop):
     quick = tier == "quick"
     return {
-        "runs": 30000 if quick else 2000000,
+        "runs": 250000 if quick else 8000000,
         "budget_s": 50 if quick else 800,
-        "chunk": 200 if quick else 1000,
+        "chunk": 1000 if quick else 2000,
         "rule": "each run = one BitField (length 1..64) and a history of "
                 "1-30 operations issued through a pool of views that share "
                 "its field tree; non-trivial = at least one operation was "
